@@ -1382,7 +1382,7 @@ func c04WType(r *Run) {
 	st := r.Rng.Intn(10)
 	e := c04Expiry(r)
 	best := []uint32{e - 1, e, e + 1, uint32(r.Rng.Intn(1 << 24))}[r.Rng.Intn(4)]
-	wt, isExp, size := account.VerifDetermineWitnessType(account.Version(v), account.State(st), e, best)
+	wt, isExp, size := account.VerifC04DetermineWitnessType(account.Version(v), account.State(st), e, best)
 	r.Emit(fmt.Sprintf("C04 wtype %d %d %d %d", v, st, e, best),
 		fmt.Sprintf("%s %s %d", wt, c04B(isExp), size))
 	r.Count("pure/wtype")
